@@ -12,6 +12,9 @@ import (
 	"verifsim/tape"
 )
 
+// LocalPath is the package path every engine uses for the package being decorated / restored.
+const LocalPath = "sim.local/pkg"
+
 type Kind int
 
 const (
@@ -54,6 +57,11 @@ func Script(t *tape.Tape, max int, conflicts bool) []Edit {
 			p = gen.Pool[t.Draw(len(gen.Pool)-1)] // never the vendor path: dst strips it on decorate only
 		}
 		e.Path = p.Path
+		if t.Bool(1, 10) {
+			// an identifier that carries the LOCAL package path (what ResolveLocalPath or hand-moved
+			// code produces): the restorer must print it unqualified and must not need an import
+			e.Path = LocalPath
+		}
 		e.Name = []string{"Foo", "Bar", "New", "Added"}[t.Draw(4)]
 		out = append(out, e)
 	}
